@@ -338,10 +338,12 @@ def describe_error(loc):
     """`Gen/SchemaFacts/Basic.lean:7` → the theorem on that line"""
     m = re.match(r"(.*\.lean):(\d+)", loc)
     try:
-        line = open(os.path.join(core.LEAN, m.group(1))).read().splitlines()[int(m.group(2)) - 1]
-        t = re.match(r"\s*theorem\s+(\S+)\s*:\s*(.*?)\s*:=", line)
-        if t:
-            return "%s: %s (%s)" % (m.group(1), t.group(1), t.group(2)[:160])
+        lines = open(os.path.join(core.LEAN, m.group(1))).read().splitlines()
+        k = int(m.group(2)) - 1
+        for back in range(0, 4):    # the error is reported at the tactic, which may sit below the `theorem` line
+            t = re.match(r"\s*theorem\s+(\S+)\s*:\s*(.*?)\s*:=", lines[k - back]) if k - back >= 0 else None
+            if t:
+                return "%s: %s (%s)" % (m.group(1), t.group(1), t.group(2)[:160])
     except Exception:  # noqa: BLE001
         pass
     return loc
